@@ -289,12 +289,28 @@ theorem wp_releaseLock (Q : Unit → St → Prop) (E) (s) :
                            else E .unlocked { s with bad := true } := by
   unfold wp releaseLock; cases h : s.lock <;> simp
 
+theorem wp_preAcquire (Q : Unit → St → Prop) (E) (s) :
+    wp preAcquire Q E s = if s.pre then E .deadlock { s with bad := true }
+                          else Q () { s with pre := true, trace := Ev.preAcquire :: s.trace } := by
+  unfold wp preAcquire; cases h : s.pre <;> simp
+
+theorem wp_txAcquire (Q : Unit → St → Prop) (E) (s) :
+    wp txAcquire Q E s = if s.lock then E .deadlock { s with bad := true }
+                         else Q () { s with lock := true, trace := Ev.acquire :: s.trace } := by
+  unfold wp txAcquire; cases h : s.lock <;> simp
+
+theorem wp_preRelease (Q : Unit → St → Prop) (E) (s) :
+    wp preRelease Q E s = if s.pre then Q () { s with pre := false, trace := Ev.preRelease :: s.trace }
+                          else E .unlocked { s with bad := true } := by
+  unfold wp preRelease; cases h : s.pre <;> simp
+
 @[simp] theorem wp_acquireLock (Q : Unit → St → Prop) (E) (s) :
     wp acquireLock Q E s =
       if s.pre then E .deadlock { s with bad := true }
-      else if s.lock then E .deadlock { s with pre := true, trace := Ev.preAcquire :: s.trace, bad := true }
+      else if s.lock then E .deadlock { s with pre := false, trace := Ev.preRelease :: Ev.preAcquire :: s.trace, bad := true }
       else Q () { s with lock := true, pre := false, trace := Ev.preRelease :: Ev.acquire :: Ev.preAcquire :: s.trace } := by
-  unfold wp acquireLock; cases h : s.pre <;> cases h2 : s.lock <;> simp [h2]
+  simp only [acquireLock, wp_bind, wp_tryFinally, wp_preAcquire, wp_txAcquire, wp_preRelease]
+  cases h : s.pre <;> cases h2 : s.lock <;> simp
 
 theorem WBF_release {tr pr b} (h : WBF tr pr true b) : WBF (Ev.release :: tr) pr false b := by
   simp_all [WBF, lockState, phaseOfLock, Phase.step]
